@@ -134,6 +134,14 @@ impl A {
         us
     }
 
+    /// File descriptors as arguments and results: returns them in the other order.
+    fn swap_fds(&self, first: zbus::zvariant::OwnedFd, rest: Vec<zbus::zvariant::OwnedFd>) -> (Vec<zbus::zvariant::OwnedFd>, zbus::zvariant::OwnedFd) {
+        use std::os::fd::AsFd;
+        let tags: Vec<u64> = std::iter::once(&first).chain(rest.iter()).map(|f| crate::net::fd_tag(f.as_fd())).collect();
+        self.rec("SwapFds", format!("{tags:x?}"), self.w.now());
+        (rest, first)
+    }
+
     fn wide(&self, a: u8, b: i64, c: f64, d: &str, e: (u32, String)) -> (i64, String) {
         self.rec("Wide", format!("{a},{b},{c},{d},{e:?}"), self.w.now());
         (b.wrapping_add(a as i64), format!("{d}{}", e.1))
@@ -541,6 +549,7 @@ pub trait SimA {
     fn describe(&self, v: &zbus::zvariant::Value<'_>) -> zbus::Result<String>;
     fn checked(&self, v: i16) -> zbus::Result<i16>;
     fn wide(&self, a: u8, b: i64, c: f64, d: &str, e: (u32, &str)) -> zbus::Result<(i64, String)>;
+    fn swap_fds(&self, first: zbus::zvariant::Fd<'_>, rest: Vec<zbus::zvariant::Fd<'_>>) -> zbus::Result<(Vec<zbus::zvariant::OwnedFd>, zbus::zvariant::OwnedFd)>;
 
     #[zbus(property)]
     fn label(&self) -> zbus::Result<String>;
